@@ -55,3 +55,31 @@ func crashed(res *ppResult) bool {
 	}
 	return res.Exit == 2 || res.Exit < 0
 }
+
+// runPPEnv is runPP with GOTRACEBACK optionally unset (pp then adds its banner / footer for single-goroutine dumps).
+func runPPEnv(stdin []byte, unsetTraceback bool, args ...string) ppResult {
+	if !unsetTraceback {
+		return runPP(stdin, nil, args...)
+	}
+	ctx, cancel := context.WithTimeout(context.Background(), 120*time.Second)
+	defer cancel()
+	cmd := exec.CommandContext(ctx, ppPath(), args...)
+	cmd.Stdin = bytes.NewReader(stdin)
+	var so, se bytes.Buffer
+	cmd.Stdout, cmd.Stderr = &so, &se
+	cmd.Env = []string{"TERM=dumb", "HOME=" + os.Getenv("VERIF_WORK"), "GOPATH=" + filepath.Join(os.Getenv("VERIF_WORK"), "nogopath"), "PATH=" + os.Getenv("PATH")}
+	err := cmd.Run()
+	res := ppResult{Stdout: so.Bytes(), Stderr: se.Bytes()}
+	if ctx.Err() != nil {
+		res.TimedOut, res.Exit = true, -1
+		return res
+	}
+	if err != nil {
+		if ee, ok := err.(*exec.ExitError); ok {
+			res.Exit = ee.ExitCode()
+		} else {
+			res.Exit = -2
+		}
+	}
+	return res
+}
